@@ -403,3 +403,21 @@ Fixpoint fit_drain (fuel : nat) (f : wfun) (lo hi : Z) (l : list event) : outcom
     | Panic => Panic | Err => Err | OutOfFuel => OutOfFuel
     end
   end.
+
+(* newFIterator with a nil time range -- what cursor.go passes for a SELECT without RANGE:
+   fit.tmRange = model.TimeRange{model.MinTimestamp, model.MaxTimestamp} (pkg/model/tmrange.go), MaxTimestamp = math.MaxInt64.
+   A query with WHERE and without RANGE is the drain of the filter iterator on this range.
+   The variant flag says what model.MinTimestamp is:
+     true   math.MinInt64 (the code since the fix): every int64 timestamp is in the default range;
+     false  int64(-6795364578871345152) = time.Time{}.UnixNano(), NOT the least int64 (the code before the fix; kept so
+            that the theorems can say what the repair bought): events dated before it were dropped. *)
+Definition code_min_ts_is_min_int64 : bool := true.
+Definition min_int64 : Z := (-9223372036854775808)%Z.
+Definition zero_time_unix_nano : Z := (-6795364578871345152)%Z.
+Definition min_timestamp (is_min_int64 : bool) : Z := if is_min_int64 then min_int64 else zero_time_unix_nano.
+Definition default_max_ts : Z := 9223372036854775807%Z.
+Definition fit_query_v (is_min_int64 : bool) (f : wfun) (l : list event) : outcome (list event) :=
+  fit_drain (S (List.length l)) f (min_timestamp is_min_int64) default_max_ts l.
+(* the code *)
+Definition default_min_ts : Z := min_timestamp code_min_ts_is_min_int64.
+Definition fit_query : wfun -> list event -> outcome (list event) := fit_query_v code_min_ts_is_min_int64.
